@@ -26,6 +26,7 @@ func enumerateCrashes(c *core.Ctx, steps []Step) {
 	}
 	type scen struct {
 		step, at, arg int
+		power         bool
 	}
 	var all []scen
 	for s := range steps {
@@ -33,10 +34,12 @@ func enumerateCrashes(c *core.Ctx, steps []Step) {
 			break
 		}
 		for e := 0; e < counts[s]; e++ {
-			all = append(all, scen{s, e, 0})
+			all = append(all, scen{s, e, 0, false})
+			// the same instant as a power loss: unsynced flat-file bytes are gone
+			all = append(all, scen{s, e, 0, true})
 			if kinds[s][e] == "write" {
 				h := core.NewRng(c.Plan.Seed ^ uint64(s)<<20 ^ uint64(e))
-				all = append(all, scen{s, e, 1 + h.Intn(255)})
+				all = append(all, scen{s, e, 1 + h.Intn(255), false})
 			}
 		}
 	}
@@ -63,7 +66,7 @@ func enumerateCrashes(c *core.Ctx, steps []Step) {
 				sp = sp[:cut]
 			}
 			st := sp[sc.step]
-			st.Crash = &Fault{Kind: "crash", At: sc.at, Arg: sc.arg}
+			st.Crash = &Fault{Kind: "crash", At: sc.at, Arg: sc.arg, Power: sc.power}
 			st.Crash2 = crash2
 			sp[sc.step] = st
 			before := c.NumViolations()
